@@ -19,12 +19,15 @@ EXTENDS Naturals, Sequences, FiniteSets, TLC
 CONSTANTS
     Threads,         \* writer threads
     MaxOps,          \* operations issued in total
-    Kinds,           \* subset of {"w", "c", "b"}: single write, clear, batch
+    Kinds,           \* subset of {"w", "c", "b", "bs"}: single write, clear, batch (default durability),
+                     \* batch / transaction committed with durability SyncData | SyncAll
     ManualKs,        \* manual_journal_persist of the KEYSPACE (insert / remove / clear do not flush the buffer)
     ManualDb,        \* manual_journal_persist of the DATABASE (batches / transactions do not flush it)
     MaxFaults,       \* injected I/O errors
     EnPersistCall,   \* Database::persist calls by a client
     FixPoisonAppend, \* model of repair: batch / clear poison on a failed journal append as well
+    SyncBatchSyncs,  \* FALSE (not the code): the durability level of a batch / transaction is dropped on the
+                     \* way to the journal writer (the commit returns without the sync it was asked for)
     PersistShortcut, \* TRUE (not the code): persist(Buffer) returns at once when the database is not in
                      \* manual mode ("every write flushed already") - wrong with a manual keyspace
     ClearFlushes     \* model of repair D27: clear flushes the buffer before it drops the tables, also
@@ -134,17 +137,24 @@ AppendFail(t) ==
 \* persist(Buffer) inside the write (skipped with manual persist; batches persist with their
 \* durability, here Buffer; clear always persists, because its Apply drops tables on disk)
 Manual == ManualKs \/ ManualDb
-SkipsFlush(i) == IF kind[i] = "b" THEN ManualDb
+SkipsFlush(i) == IF kind[i] = "bs" THEN FALSE      \* an explicit durability level always persists
+                 ELSE IF kind[i] = "b" THEN ManualDb
                  ELSE ManualKs /\ ~(ClearFlushes /\ kind[i] = "c")
 
+\* (a batch / transaction with a Sync durability level also syncs: everything acknowledged before
+\* it - and the batch itself once it is acknowledged, see Ack - is power-loss durable from here on)
 FlushOk(t) ==
     /\ Running /\ pc[t] = "appended"
     /\ IF SkipsFlush(cur[t])
        THEN UNCHANGED <<nOs, osPart>>
        ELSE nOs' = NApp /\ osPart' = FALSE
+    /\ IF kind[cur[t]] = "bs" /\ SyncBatchSyncs
+       THEN /\ nSync' = NApp /\ syncPart' = FALSE
+       ELSE UNCHANGED <<nSync, syncPart>>
+    /\ durable' = IF kind[cur[t]] = "bs" THEN durable \cup {i \in Ops : ack[i] = "ok"} ELSE durable
     /\ pc' = [pc EXCEPT ![t] = "flushed"]
-    /\ UNCHANGED <<lock, cur, nops, kind, frame, nSync, syncPart, ack, applied, poisoned,
-                   ioFailed, ackedAtFail, badAck, faults, pmode, pSnap, durable, bufdurable, phase, rec>>
+    /\ UNCHANGED <<lock, cur, nops, kind, frame, ack, applied, poisoned,
+                   ioFailed, ackedAtFail, badAck, faults, pmode, pSnap, bufdurable, phase, rec>>
 
 FlushFail(t) ==
     /\ Running /\ pc[t] = "appended" /\ faults < MaxFaults
@@ -170,9 +180,10 @@ Ack(t) ==
     /\ Running /\ pc[t] = "applied"
     /\ ack' = [ack EXCEPT ![cur[t]] = "ok"]
     /\ badAck' = (badAck \/ ioFailed)
+    /\ durable' = IF kind[cur[t]] = "bs" THEN durable \cup {cur[t]} ELSE durable
     /\ lock' = Free /\ pc' = [pc EXCEPT ![t] = "idle"]
     /\ UNCHANGED <<cur, nops, kind, frame, nOs, osPart, nSync, syncPart, applied, poisoned,
-                   ioFailed, ackedAtFail, faults, pmode, pSnap, durable, bufdurable, phase, rec>>
+                   ioFailed, ackedAtFail, faults, pmode, pSnap, bufdurable, phase, rec>>
 
 \* ---------------------------------------------------------------------------
 \* Database::persist(mode): poison check WITHOUT the mutex, then Journal::persist takes the
